@@ -4,9 +4,11 @@ pub mod cfggen;
 pub mod dyni;
 pub mod dynm;
 pub mod engine;
+pub mod fuzz_entry;
 pub mod gen;
 pub mod mgen;
 pub mod refm;
+pub mod transcript;
 pub mod props;
 
 pub use engine::{Tier, Stats, CaseResult, Failure};
